@@ -307,7 +307,7 @@ fn mod_model(seed: u64) -> String {
         let p2 = path.clone();
         let names2 = names.clone();
         let mut ops: Vec<(u8, usize, usize, u8)> = Vec::new();
-        for _ in 0..steps { ops.push(((rng.next() % 4) as u8, (rng.next() % 5) as usize, (rng.next() % 5) as usize, (rng.next() % 200) as u8)); }
+        for _ in 0..steps { ops.push(((rng.next() % 5) as u8, (rng.next() % 5) as usize, (rng.next() % 5) as usize, (rng.next() % 200) as u8)); }
         let ops2 = ops.clone();
         let model0 = model.clone();
         let r = with_timeout(30, move || -> Result<(BTreeMap<String, Vec<u8>>, Vec<String>), String> {
@@ -320,6 +320,11 @@ fn mod_model(seed: u64) -> String {
                     0 | 1 => { let d = vec![v; 5 + i];
                         let r = m.add_file_data(&d, n, AddFileOptions::new().replace_existing(true));
                         log.push(format!("add({}) -> {}", n, r.is_ok()));
+                        if r.is_ok() { model.insert(n.clone(), d); } }
+                    4 => { let d = vec![v; 3 + i];
+                        let r = m.add_file_data(&d, n, AddFileOptions::new().replace_existing(false));
+                        log.push(format!("add_no_replace({}) -> {}", n, r.is_ok()));
+                        if r.is_ok() == model.contains_key(n) { return Err(format!("add({}, replace_existing(false)) returned {} but the map model has key: {}", n, r.is_ok(), model.contains_key(n))); }
                         if r.is_ok() { model.insert(n.clone(), d); } }
                     2 => { let r = m.remove_file(n); log.push(format!("remove({}) -> {}", n, r.is_ok()));
                         if r.is_ok() != model.contains_key(n) { return Err(format!("remove({}) returned {} but model has key: {}", n, r.is_ok(), model.contains_key(n))); }
@@ -349,6 +354,46 @@ fn mod_model(seed: u64) -> String {
             if got != want {
                 return fail("mod_model", format!("names with equal home slot {}: {:?}; ops: {:?}", slot, names, log),
                     format!("after reopen read_file({}) = {:?}", n, got.map(|g| g.len())), format!("{:?} (plain map model)", want.map(|g| g.len())));
+            }
+        }
+    }
+    // hash table without a never-used slot: fill the table through the editor, tombstone two entries, then look up / remove /
+    // rename an absent name, refill, and add once more (must be refused); everything must return and agree with the map
+    {
+        let dir = tempfile::tempdir().unwrap();
+        let path = dir.path().join("full.mpq");
+        let b = ArchiveBuilder::new().listfile_option(ListfileOption::None).add_file_data(vec![1u8; 5], "seed0.bin").add_file_data(vec![2u8; 6], "seed1.bin");
+        if b.build(&path).is_ok() {
+            let p2 = path.clone();
+            let r = with_timeout(40, move || -> Result<BTreeMap<String, Vec<u8>>, String> {
+                let mut model: BTreeMap<String, Vec<u8>> = BTreeMap::new();
+                model.insert("seed0.bin".into(), vec![1u8; 5]); model.insert("seed1.bin".into(), vec![2u8; 6]);
+                let mut m = MutableArchive::open(&p2).map_err(|e| format!("open: {}", e))?;
+                let mut i = 0u8;
+                loop {
+                    let n = format!("fill{:02}.bin", i); let d = vec![i; 4 + (i as usize % 3)];
+                    match m.add_file_data(&d, &n, AddFileOptions::new()) { Ok(_) => { model.insert(n, d); } Err(_) => break }
+                    i += 1;
+                    if i > 40 { return Err("more than 40 additions accepted by a table built for 2 files".into()); }
+                }
+                for n in ["fill00.bin", "fill03.bin"] { if model.contains_key(n) { m.remove_file(n).map_err(|e| format!("remove({}): {}", n, e))?; model.remove(n); } }
+                if m.find_file("absent-name.bin").map_err(|e| format!("find_file(absent): {}", e))?.is_some() { return Err("find_file(absent-name.bin) found something".into()); }
+                if m.remove_file("absent-name.bin").is_ok() { return Err("remove_file(absent-name.bin) succeeded".into()); }
+                if m.rename_file("absent-name.bin", "other.bin").is_ok() { return Err("rename_file(absent-name.bin) succeeded".into()); }
+                for n in ["re0.bin", "re1.bin"] { let d = vec![0xEEu8; 9]; if m.add_file_data(&d, n, AddFileOptions::new()).is_ok() { model.insert(n.to_string(), d); } }
+                let _ = m.add_file_data(&[1, 2, 3], "overflow.bin", AddFileOptions::new()).map(|_| model.insert("overflow.bin".into(), vec![1, 2, 3]));
+                m.flush().map_err(|e| format!("flush: {}", e))?;
+                Ok(model)
+            });
+            tried += 1;
+            match r {
+                None => return fail("mod_model", "2-file archive; add fillNN.bin until refused; remove fill00/fill03; find/remove/rename an absent name".into(), "an operation did not terminate within 40 s".into(), "every operation terminates".into()),
+                Some(Err(e)) => return fail("mod_model", "2-file archive filled through the editor, two removals, absent-name operations".into(), e, "agreement with a plain map".into()),
+                Some(Ok(model)) => {
+                    let mut a = match Archive::open(&path) { Ok(a) => a, Err(e) => return fail("mod_model", "full-table scenario".into(), format!("reopen failed: {}", e), "archive reopens".into()) };
+                    for (n, d) in &model { if a.read_file(n).ok().as_ref() != Some(d) { return fail("mod_model", "2-file archive filled through the editor, two removals, re-additions".into(), format!("after reopen read_file({}) differs", n), "the map model's content".into()); } }
+                    for n in ["fill00.bin", "fill03.bin", "absent-name.bin"] { if !model.contains_key(n) && a.read_file(n).is_ok() { return fail("mod_model", "full-table scenario".into(), format!("read_file({}) is Ok after removal", n), "not found".into()); } }
+                }
             }
         }
     }
@@ -400,6 +445,66 @@ fn build_lookup(seed: u64) -> String {
             }
         }
         if a.read_file("never-added.bin").is_ok() { return fail("build_lookup", format!("{:?}", names), "read_file(never-added.bin) is Ok".into(), "not found".into()); }
+    }
+    // a second spelling of a stored name (same hashes) whose first copy was displaced from its home slot by a colliding name:
+    // the build must refuse it, or both spellings must read back what was added under them
+    {
+        let home = wow_mpq::crypto::hash_string("Data\\Foo.txt", 0) & 15;
+        let filler = colliding_names(home, 1).remove(0);
+        let dir = tempfile::tempdir().unwrap();
+        let path = dir.path().join("d.mpq");
+        let r = ArchiveBuilder::new().listfile_option(ListfileOption::None)
+            .add_file_data(vec![1u8; 9], &filler).add_file_data(vec![2u8; 10], "Data\\Foo.txt").add_file_data(vec![3u8; 11], "data/foo.TXT").build(&path);
+        tried += 1;
+        if r.is_ok() {
+            let desc = format!("files [{:?}, \"Data\\\\Foo.txt\", \"data/foo.TXT\"] (the first two share home slot {} of 16)", filler, home);
+            match Archive::open(&path) {
+                Err(e) => return fail("build_lookup", desc, format!("open failed: {}", e), "Ok".into()),
+                Ok(mut a) => {
+                    let g1 = a.read_file("Data\\Foo.txt").ok(); let g2 = a.read_file("data/foo.TXT").ok();
+                    if g1 != Some(vec![2u8; 10]) || g2 != Some(vec![3u8; 11]) {
+                        return fail("build_lookup", desc, format!("build Ok; read back {:?} / {:?} bytes", g1.map(|g| g.len()), g2.map(|g| g.len())), "a duplicate-name error, or each spelling reads back its own content".into());
+                    }
+                }
+            }
+        }
+    }
+    // the generated (listfile) names every added file, also when one name is a substring of an earlier one
+    {
+        let dir = tempfile::tempdir().unwrap();
+        let path = dir.path().join("g.mpq");
+        let names = ["Textures\\stone.blp.bak", "Textures\\stone.blp", "Docs\\readme.txt", "readme.txt", "a", "aa"];
+        let mut b = ArchiveBuilder::new().listfile_option(ListfileOption::Generate);
+        for (i, n) in names.iter().enumerate() { b = b.add_file_data(vec![i as u8; 3 + i], n); }
+        tried += 1;
+        if b.build(&path).is_ok() {
+            if let Ok(mut a) = Archive::open(&path) {
+                match a.read_file("(listfile)") {
+                    Ok(text) => {
+                        let text = String::from_utf8_lossy(&text).to_string();
+                        let lines: Vec<&str> = text.split("\r\n").filter(|l| !l.is_empty()).collect();
+                        for n in names.iter() {
+                            if lines.iter().filter(|l| *l == n).count() != 1 { return fail("build_lookup", format!("files {:?} with a generated listfile", names), format!("(listfile) lines {:?}", lines), format!("exactly one line {:?}", n)); }
+                        }
+                    }
+                    Err(e) => return fail("build_lookup", format!("files {:?} with a generated listfile", names), format!("read_file((listfile)) Err({})", e), "Ok".into()),
+                }
+            }
+        }
+    }
+    // a file stored under a non-neutral locale is found by the plain lookup
+    {
+        let dir = tempfile::tempdir().unwrap();
+        let path = dir.path().join("l.mpq");
+        let r = ArchiveBuilder::new().listfile_option(ListfileOption::None).add_file_data(vec![5u8; 12], "neutral.txt")
+            .add_file_data_with_options(vec![7u8; 13], "locale\\deDE.txt", 0, false, 0x407).build(&path);
+        tried += 1;
+        if let Ok(()) = r {
+            if let Ok(mut a) = Archive::open(&path) {
+                let g = a.read_file("locale\\deDE.txt").ok();
+                if g != Some(vec![7u8; 13]) { return fail("build_lookup", "file added with locale 0x407 next to a neutral file".into(), format!("read_file -> {:?}", g.map(|g| g.len())), "the 13 added bytes".into()); }
+            }
+        }
     }
     none("build_lookup", tried)
 }
@@ -857,6 +962,26 @@ fn ffi_cursor(seed: u64) -> String {
             let p = info_pos(file);
             if p != model || p > len { return fail("ffi_cursor", format!("{:?}", trace), format!("cursor {} (file size {})", p, len), format!("cursor {}", model)); }
         }
+        // 64-bit forms: a negative offset passed the Win32 way (low = -n, *high = -1), a zero high part, the size's high dword
+        for (low, hi, method) in [(-4i32, -1i32, 2u32), (-10, -1, 2), (25, 0, 0), (-1, -1, 2)] {
+            tried += 1;
+            let mut h = hi;
+            let r = SFileSetFilePointer(file, low, &mut h, method);
+            let want = (if method == 2 { len as i64 } else { 0 }) + low as i64;
+            if r as i64 != want || h != 0 { return fail("ffi_cursor", format!("SFileSetFilePointer(low {}, *high {}, method {}) on a {}-byte file", low, hi, method, len), format!("returns {} with *high = {}", r, h), format!("{} with *high = 0", want)); }
+            if info_pos(file) != want as u64 { return fail("ffi_cursor", format!("SFileSetFilePointer(low {}, *high {}, method {})", low, hi, method), format!("cursor {}", info_pos(file)), format!("{}", want)); }
+        }
+        {
+            tried += 1;
+            let mut high = 0xDEADBEEFu32;
+            let low = SFileGetFileSize(file, &mut high);
+            if low as u64 != len || high != 0 { return fail("ffi_cursor", format!("SFileGetFileSize on a {}-byte file with *high preset to 0xDEADBEEF", len), format!("low {} high {:#x}", low, high), format!("low {} high 0", len)); }
+            let mut got = 777u32;
+            SFileSetFilePointer(file, 0, ptr::null_mut(), 2);
+            let mut b1 = [0u8; 4];
+            let ok = SFileReadFile(file, b1.as_mut_ptr() as *mut c_void, 4, &mut got, ptr::null_mut());
+            if !ok || got != 0 { return fail("ffi_cursor", "SFileReadFile of 4 bytes at end of file with *read preset to 777".into(), format!("ok={} *read={}", ok, got), "*read = 0".into()); }
+        }
         // forged / null / stale handles
         let forged = ((file as usize) | (1usize << 32)) as HANDLE;
         if SFileGetFileSize(forged, ptr::null_mut()) != 0xFFFFFFFF { return fail("ffi_cursor", format!("SFileGetFileSize(forged handle {:#x}) while {:#x} is live", forged as usize, file as usize), "accepted".into(), "INVALID_FILE_SIZE".into()); }
@@ -1055,7 +1180,8 @@ fn adt_offsets(seed: u64) -> String {
     let mut tried = 0;
     for round in 0..20 {
         let nm = (rng.next() % 4) as usize; let nw = (rng.next() % 4) as usize; let nc = 1 + (rng.next() % 3) as usize;
-        let models: Vec<String> = (0..nm).map(|i| format!("world/m{}{}.m2", "x".repeat((rng.next() % 5) as usize), i)).collect();
+        let mut models: Vec<String> = (0..nm).map(|i| format!("world/m{}{}.m2", "x".repeat((rng.next() % 5) as usize), i)).collect();
+        if nm >= 2 { models[0] = "world/m\u{f6}del_\u{e9}.m2".to_string(); }
         let wmos: Vec<String> = (0..nw).map(|i| format!("world/w{}{}.wmo", "y".repeat((rng.next() % 7) as usize), i)).collect();
         let mut b = AdtBuilder::new().with_version(if round % 2 == 0 { AdtVersion::VanillaEarly } else { AdtVersion::WotLK }).add_texture("tileset/grass.blp");
         for m in &models { b = b.add_model(m.clone()); }
